@@ -426,7 +426,10 @@ class _InstallWrapper(IpcCommand):
                 try:
                     sstat = os.stat(source)
                 except OSError as e:
-                    raise IpcCommandError(f"cannot stat {source!r}: {e.strerror}")
+                    if not os.path.islink(source):
+                        raise IpcCommandError(f"cannot stat {source!r}: {e.strerror}")
+                    # symlinks are copied as-is, their target need not exist here
+                    sstat = os.lstat(source)
 
                 self._is_install_allowed(source, sstat, dest)
 
